@@ -7,11 +7,12 @@
 set -u
 patch=$(readlink -f "$1"); prop=$2; tier=${3:-quick}
 tag=$(echo "$patch" | md5sum | cut -c1-8)
-wt=/tmp/psv-seeded-$tag; bd=/verif/build-seeded-$tag
+V=${PSV_VERIF:-/verif}
+wt=/tmp/psv-seeded-$tag-$$; bd=$V/build-seeded-$tag-$$
 git -C /repo worktree add -q --detach "$wt" ${PSV_BASE_COMMIT:-HEAD} || exit 3
 trap 'git -C /repo worktree remove --force "$wt" >/dev/null 2>&1; rm -rf "$bd"' EXIT
 git -C "$wt" apply "$patch" || { echo "patch does not apply"; exit 3; }
-cd /verif
+cd $V
 PSV_REPO=$wt PSV_BUILD=$bd PSV_EVIDENCE_DIR=$bd/evidence PSV_REPLAY_DIR=$bd/replays ./check "$prop" "$tier"
 rc=$?
 # keep the replay files of a detection next to the seeded change if asked to
